@@ -415,10 +415,8 @@ func (fs *c11FS) openForWrite(r *sftp.Request) (*c11Node, error) {
 		if !fs.parentOK(p) {
 			return nil, os.ErrNotExist
 		}
+		// (the attribute flags of an OPEN never reach the handler: Request.Flags carries the pflags)
 		n = &c11Node{mode: 0o644, mtime: 1000000000}
-		if a := r.Attributes(); a != nil && r.AttrFlags().Permissions {
-			n.mode = a.Mode & 0o777
-		}
 		fs.nodes[p] = n
 	}
 	if fl.Trunc {
